@@ -47,8 +47,16 @@ def same(a, b):
 
 
 def sel(p, g):
+    """the operand the caller hands in; a slice has already been looked at by the caller (shape, contents), as in the
+    contract-side scenario"""
     item = GEOMS[g]
-    return p if item == 'PLATE' else p[item]
+    if item == 'PLATE':
+        return p
+    s = p[item]
+    s.get()
+    s.shape
+    s.size
+    return s
 
 
 def cells(p, g):
